@@ -7,6 +7,7 @@ package main
 // acknowledged operations, all of each operation or none of it.
 
 import (
+	"bytes"
 	"crypto/sha1"
 	"flag"
 	"fmt"
@@ -171,6 +172,7 @@ func cmdCrashKv(fs *flag.FlagSet, args []string) {
 		}
 		emitWalTrace(events, disksz)
 		cps, total := crashPoints(events, p0, 0, 1<<30, *maxImages, root)
+		cps = append([]cp{{p: p0, desc: "right after start-up, all-pending-written"}, {p: p0, dropAll: true, desc: "right after start-up, no-pending-written"}}, cps...)
 		checked, distinct := checkPrefixStates("C18", fmt.Sprintf("kvs workload %d (seed %d)", w, *seed), events, ops, dumps, cps, func(img map[uint64][]byte) (string, bool) {
 			var st *kvs.KVS
 			if !guardedCall(func() { st = kvs.MkKVS(NewOverlay(disksz, img), kvsz) }) {
@@ -279,12 +281,42 @@ func cmdCrashSimple(fs *flag.FlagSet, args []string) {
 		}
 		emitWalTrace(events, disksz)
 		cps, total := crashPoints(events, p0, 0, 1<<30, *maxImages, root)
+		// the point right after start-up (nothing but MakeNfs and reads has happened): every write issued so
+		// far made it / none of the un-barriered ones did
+		cps = append([]cp{{p: p0, desc: "right after start-up, all-pending-written"}, {p: p0, dropAll: true, desc: "right after start-up, no-pending-written"}}, cps...)
+		probeReported := false
 		checked, distinct := checkPrefixStates("C17", fmt.Sprintf("simple workload %d (seed %d)", w, *seed), events, ops, dumps, cps, func(img map[uint64][]byte) (string, bool) {
 			var rs *simple.Nfs
 			if !guardedCall(func() { rs = simple.Recover(NewOverlay(disksz, img)) }) {
 				return "", false
 			}
-			return dumpSrv(rs)
+			d, ok := dumpSrv(rs)
+			if ok {
+				// the recovered server must go on working as a file server: every file takes its own
+				// data and gives it back (files must not share storage, whatever was on the disk)
+				bad := ""
+				guardedCall(func() {
+					for f := uint64(2); f < 32; f++ {
+						data := bytes.Repeat([]byte{byte(0x40 + f)}, 8)
+						w := rs.NFSPROC3_WRITE(nfstypes.WRITE3args{File: fhOf(f), Offset: 0, Count: 8, Stable: nfstypes.FILE_SYNC, Data: data})
+						if w.Status != nfstypes.NFS3_OK && bad == "" {
+							bad = fmt.Sprintf("WRITE to file %d returned status %d", f, w.Status)
+						}
+					}
+					for f := uint64(2); f < 32 && bad == ""; f++ {
+						rd := rs.NFSPROC3_READ(nfstypes.READ3args{File: fhOf(f), Offset: 0, Count: 8})
+						want := bytes.Repeat([]byte{byte(0x40 + f)}, 8)
+						if rd.Status != nfstypes.NFS3_OK || !bytes.Equal(rd.Resok.Data, want) {
+							bad = fmt.Sprintf("file %d was written %x and reads %x (status %d)", f, want, rd.Resok.Data, rd.Status)
+						}
+					}
+				})
+				if bad != "" && !probeReported {
+					probeReported = true
+					emit("# ORACLE C17 recovered-server-broken simple workload %d (seed %d): after recovery from a crash image, %s", w, *seed, bad)
+				}
+			}
+			return d, ok
 		})
 		emit("crashsum workload=%d events=%d crashpoints=%d checked=%d distinct-recovered-states=%d", w, len(events), total, checked, distinct)
 	}
